@@ -508,7 +508,7 @@ class Engine:
                 break
         return npaths, undecided, exits
 
-    def verify(self, key, fn=None, closure_env=None):
+    def verify(self, key, fn=None, closure_env=None, only_case=None):
         """Check the body of the real function `key` against its contract, all cases, all paths."""
         ct = self.contracts[key]
         modname, qual = key.split(":")
@@ -527,6 +527,8 @@ class Engine:
         t0 = time.time()
         prev = self.current_target
         for case_name, setup in ct.cases:
+            if only_case is not None and case_name != only_case:
+                continue
             label = f"{key}/{case_name}"
 
             def run_path(c, setup=setup):
